@@ -58,6 +58,9 @@ struct year_month_day_last {
 
     [[nodiscard]] constexpr auto day() const noexcept -> chrono::day
     {
+        if (not month().ok()) {
+            return chrono::day{0}; // unspecified for an invalid month, but never reads outside the table
+        }
         return detail::last_day_of_month(year(), month());
     }
 
